@@ -6,7 +6,7 @@ ASSUMPTIONS = ["asyncio-visible interleavings only (gates at query rows / notify
 
 
 def run(tier, seed):
-    return [relay.suite_exhaustive(tier, seed, "sql", pid="C13"), relay.suite_validate(tier, seed, pid="C13"), relay.suite_relay(tier, seed, "sql", pid="C13"),
+    return [relay.suite_exhaustive(tier, seed, "sql", pid="C13"), relay.suite_validate(tier, seed, pid="C13"), relay.suite_churn(tier, seed, "sql", pid="C13"), relay.suite_relay(tier, seed, "sql", pid="C13"),
             relay.suite_relay(tier, seed, "kv", pid="C13")]
 
 
